@@ -294,3 +294,56 @@ def float_far_tail(chk, n, clauses=("textbook", "duality", "swap")):
                     chk.fail("far tail: exchanging control and treatment (alternative mirrored) changes the p-value",
                              dict(input=inp, alternative=a, original=float(res[a].pvalue),
                                   swapped=float(res["swap:" + b].pvalue)))
+
+
+def float_duality_boundary(chk, n):
+    """Float mode: the statistic is placed a hair (1e-4 relative) below / above the critical value of the test, for small
+    and for large degrees of freedom; `pvalue < 1 - confidence_level` must hold exactly when the absolute interval
+    excludes zero.  An interval built from another distribution than the p-value (a normal quantile for a t test with
+    many degrees of freedom, a quantile of the relative interval's distribution) breaks the equivalence in that band."""
+    import math
+
+    import numpy as np
+    import pyarrow as pa
+    import scipy.stats as st
+    import tea_tasting as tt
+    rng = np.random.default_rng(chk.seed + 17)
+    for k in range(n):
+        alt, ev, ut = CELLS[k % len(CELLS)]
+        big = bool(rng.integers(0, 2)) if not ut else (k // 2) % 2 == 0   # both sizes for every t cell
+        nc, nt = (int(rng.integers(900, 3000)), int(rng.integers(900, 3000))) if big else \
+            (int(rng.integers(4, 30)), int(rng.integers(4, 30)))
+        cl = float(rng.choice([0.9, 0.95, 0.99]))
+        xc = rng.normal(10, 2, nc)
+        xt = rng.normal(10, rng.uniform(1, 4), nt)
+        vc, vt = xc.var(ddof=1), xt.var(ddof=1)
+        if ev:
+            sp = ((nc - 1) * vc + (nt - 1) * vt) / (nc + nt - 2)
+            se, df = math.sqrt(sp * (1 / nc + 1 / nt)), nc + nt - 2
+        else:
+            se = math.sqrt(vc / nc + vt / nt)
+            df = (vc / nc + vt / nt) ** 2 / ((vc / nc) ** 2 / (nc - 1) + (vt / nt) ** 2 / (nt - 1))
+        dist = st.t(df) if ut else st.norm()
+        a = 1 - cl
+        crit = dist.ppf(1 - a / 2) if alt == "two-sided" else dist.ppf(1 - a)
+        sign = -1 if alt == "less" or (alt == "two-sided" and k % 3 == 0) else 1
+        for side in (-1, 1):
+            z = sign * crit * (1 + side * 1e-4)
+            shifted = xt + (xc.mean() - xt.mean()) + z * se
+            data = pa.table({"variant": [0] * nc + [1] * nt, "x": np.concatenate([xc, shifted])})
+            try:
+                r = tt.Mean("x", alternative=alt, equal_var=ev, use_t=ut, confidence_level=cl).analyze(data, 0, 1, "variant")
+            except Exception as ex:  # noqa: BLE001
+                chk.fail("analysis raised on plain float data", dict(error=repr(ex)))
+                break
+            lo, hi = float(r.effect_size_ci_lower), float(r.effect_size_ci_upper)
+            excludes = not (lo <= 0 <= hi)
+            signif = float(r.pvalue) < a
+            chk.case(("duality-boundary", alt, ev, ut, big, side, cl))
+            chk.branch("duality-boundary:" + ("large-df" if big else "small-df"))
+            if excludes != signif or signif != (side > 0):
+                chk.fail("p-value < 1 - confidence_level and `the absolute interval excludes zero` disagree just "
+                         + ("above" if side > 0 else "below") + " the critical value",
+                         dict(cell=[alt, ev, ut], confidence_level=cl, n=[nc, nt], df=float(df), statistic=float(r.statistic),
+                              critical=float(crit), pvalue=float(r.pvalue), ci=[lo, hi], seed=chk.seed, case=k))
+                break
